@@ -143,8 +143,8 @@ Theorem C11_single_perm_invariant : forall (T : Type) (F : fops T) (p : profile)
   run_with F p a Single s1 d1 m n = Ok (sr, dr, mr) ->
   run_with F p a' Single s2 d2 m' n = Ok (sr', dr', mr') ->
   prologue p m n = Ok M0 -> prologue p m' n = Ok M0' -> m_obs M0' = m_obs M0 -> 1 <= m_obs M0 ->
-  Forall (fun v => f_ltb F v (f_max F) = true) m -> Forall (fun v => f_ltb F v (f_inf F) = true) m ->
-  Forall (fun v => f_ltb F v (f_max F) = true) m' -> Forall (fun v => f_ltb F v (f_inf F) = true) m' ->
+  Forall (fun v => f_ltb F v (f_inf F) = true) m -> Forall (fun v => f_ltb F v (f_inf F) = true) m ->
+  Forall (fun v => f_ltb F v (f_inf F) = true) m' -> Forall (fun v => f_ltb F v (f_inf F) = true) m' ->
   (forall x, x < m_obs M0 -> pi x < m_obs M0) ->
   (forall x y, x < m_obs M0 -> y < m_obs M0 -> pi x = pi y -> x = y) ->
   (forall y, y < m_obs M0 -> exists x, x < m_obs M0 /\ pi x = y) ->
